@@ -59,6 +59,14 @@ func witnessSet() []ipt {
 
 var witnessTols = []float64{2, 5, 9.5, 14, 25}
 
+// flatSet: six points spread over 10^7 in x and 0.1 in y (divided by 1000:
+// the chords are 10^7 to 10^10 times longer than the tolerances used with them).
+func flatSet() []ipt {
+	return []ipt{{0, 0}, {6000000000, 50}, {10000000000, 0}, {3000000000, -20}, {8000000000, 35}, {1000000000, 7}}
+}
+
+var flatTols = []float64{1e-3, 0.01, 0.03, 0.1}
+
 // injective calls f with every sequence of l distinct indices below n (the
 // slice is reused).
 func injective(n, l int, f func(seq []int)) {
@@ -374,6 +382,14 @@ func enumerate(visit func(idx int64, mk func() Case)) {
 			}
 		})
 	}
+	for l := 3; l <= 6; l++ {
+		injective(len(flatSet()), l, func(seq []int) {
+			for _, tol := range flatTols {
+				tol := tol
+				emit(func() Case { return Case{Kind: "line-flat", Seq: append([]int{}, seq...), Tol: tol} })
+			}
+		})
+	}
 	injMax := 7 // (thorough: length 7 over the 16-point set, 57.7 million sequences)
 	for l := 7; l <= injMax; l++ {
 		injective(len(ps), l, func(seq []int) {
@@ -479,7 +495,7 @@ func lenClass(n int) string {
 func execute(c Case) (string, string, bool) {
 	ps := pointSet()
 	switch c.Kind {
-	case "line", "grid-line", "line-small", "line-tiny", "line-huge", "line-sliver", "line-witness", "line-long":
+	case "line", "grid-line", "line-small", "line-tiny", "line-huge", "line-sliver", "line-witness", "line-long", "line-flat":
 		li := make([]ipt, len(c.Seq))
 		if c.Kind == "line-long" {
 			li = longLine(c.Seq[0], c.Seq[1])
@@ -488,6 +504,8 @@ func execute(c Case) (string, string, bool) {
 			ps = sliverSet()
 		} else if c.Kind == "line-witness" {
 			ps = witnessSet()
+		} else if c.Kind == "line-flat" {
+			ps = flatSet()
 		}
 		for i, k := range c.Seq {
 			if c.Kind == "line-long" {
@@ -505,6 +523,8 @@ func execute(c Case) (string, string, bool) {
 			sc = 1000
 		} else if c.Kind == "line-tiny" {
 			sc = 1e5
+		} else if c.Kind == "line-flat" {
+			sc = 1000
 		} else if c.Kind == "line-huge" {
 			sc = math.Ldexp(1, -80) // (coordinates are divided by sc: an exact scaling by 2^80)
 		} else if c.Kind == "line-sliver" {
@@ -707,7 +727,7 @@ func main() {
 		}
 	}
 	r := report.New("C13", tier, "model_checking")
-	r.Rule = "E1 (isolated workers, 2 GiB address-space limit, 60 s silence horizon): every vertex sequence of length 0..6 (thorough: over 16 points) over a 12-point set with no three points collinear (verified exactly) x tolerances {0,40,100,150,300,1e9}; every sequence of length 3..5 over the same point set scaled by 1e-3, by 1e-5 and (exactly) by 2^80 x 3 scaled tolerances each; every sequence of length 3..6 over an 8-point sliver set (flat triangles, 1..5 degree crossings; no three collinear) at the exact scales 1, 2^-8, 2^-16 x 4 tolerances; every injective sequence of length 3..8 over an 8-point witness set (two-step back-offs) x 5 tolerances and of length 7 over the main set x 3 tolerances; three shapes of simple x-monotone lines of 63..1000 vertices x 5 tolerances; every sequence of length <= 4 over the plain 4x4 integer grid x 4 tolerances (termination / subsequence / tolerance clauses only); 7 polygons (holes, unclosed, degenerate rings) x 6 tolerances and all ordered pairs as MultiPolygon; two-member MultiLineStrings. Oracle (every polygon / multi case and every 8th line case also with the vertex slices cut from one flat buffer and called twice: same output, buffer not written): terminates; output is an order-preserving subsequence keeping first and last vertex; an embedding exists in which every dropped vertex is within tol of its replacing segment; exactly simple input => exactly simple output; input unchanged; multi members equal the member simplified alone. Non-trivial = calls that drop at least one vertex."
+	r.Rule = "E1 (isolated workers, 2 GiB address-space limit, 60 s silence horizon): every vertex sequence of length 0..6 (thorough: over 16 points) over a 12-point set with no three points collinear (verified exactly) x tolerances {0,40,100,150,300,1e9}; every sequence of length 3..5 over the same point set scaled by 1e-3, by 1e-5 and (exactly) by 2^80 x 3 scaled tolerances each; every sequence of length 3..6 over an 8-point sliver set (flat triangles, 1..5 degree crossings; no three collinear) at the exact scales 1, 2^-8, 2^-16 x 4 tolerances; every injective sequence of length 3..8 over an 8-point witness set (two-step back-offs) x 5 tolerances and of length 7 over the main set x 3 tolerances; every injective sequence of length 3..6 over a flat 6-point set (extent 10^7 x 0.1) x 4 tolerances of 1e-3..0.1 (chords 10^8..10^10 tolerances long); three shapes of simple x-monotone lines of 63..1000 vertices x 5 tolerances; every sequence of length <= 4 over the plain 4x4 integer grid x 4 tolerances (termination / subsequence / tolerance clauses only); 7 polygons (holes, unclosed, degenerate rings) x 6 tolerances and all ordered pairs as MultiPolygon; two-member MultiLineStrings. Oracle (every polygon / multi case and every 8th line case also with the vertex slices cut from one flat buffer and called twice: same output, buffer not written): terminates; output is an order-preserving subsequence keeping first and last vertex; an embedding exists in which every dropped vertex is within tol of its replacing segment; exactly simple input => exactly simple output; input unchanged; multi members equal the member simplified alone. Non-trivial = calls that drop at least one vertex."
 	sum := fault.Sweep(r, 16, 2<<20, 60*time.Second, func(idx int64) (string, interface{}) {
 		var sig string
 		var det interface{}
